@@ -152,6 +152,12 @@ def gen(ctx: Ctx, n):
             elif kind == 2: scripts = [G.push(deff_(h, op('TRUE'))) + op('EVAL'), op('CALL') + bytes([h])]
             else: scripts = [deff_(h, chk) + G.push(given) + G.push(blob) + op('EVAL') + op('CALL') + bytes([h]) + op('TRUE')]
             cfg = vmrun.Cfg()
+        if rng.random() < .02:
+            # a lock that reaches for a stack slot that is not there (SWAP with an index equal to / beyond the depth) raises: False
+            d_ = rng.randrange(1, 6); k_ = rng.randrange(0, d_); far = rng.choice([d_, d_, d_ + 1, 255])
+            scripts = [op('TRUE') * d_, op('SWAP') + bytes(rng.choice([[k_, far], [far, k_]])) + op('POP0') * (d_ - 1)]
+            if rng.random() < .3: scripts = [scripts[0] + scripts[1]]
+            cfg = vmrun.Cfg()
         cases.append((cfg, cache, scripts))
     return cases
 
